@@ -24,6 +24,7 @@ type Report struct {
 
 	Skeletons           int
 	Skipped             int
+	Reduced             []string // skeletons decided on a smaller bound than planned
 	SkelErrors          []string
 	Paths               int
 	Forks               int
@@ -72,6 +73,9 @@ func (r *Report) AddSkel(sk *Skeleton, s *SkelResult) {
 	}
 	r.Skeletons++
 	r.Families[sk.Family]++
+	if s.ReducedBound != "" {
+		r.Reduced = append(r.Reduced, sk.Name+": "+s.ReducedBound)
+	}
 	if s.SkelError != "" {
 		r.SkelErrors = append(r.SkelErrors, sk.Name+": "+s.SkelError)
 		return
@@ -211,6 +215,9 @@ func (r *Report) Finish(t0 time.Time) int {
 
 	fmt.Printf("%s %s: skeletons=%d paths=%d forks=%d verdict-queries unsat=%d sat=%d unknown=%d feasibility=%d validated-natively=%d solver=%.1fs wall=%.1fs\n",
 		r.ID, r.Tier, r.Skeletons, r.Paths, r.Forks, r.VerdictUnsat, r.VerdictSat, r.VerdictUnknown, r.FeasQueries, r.Validated, r.SolverTime.Seconds(), wall)
+	for _, l := range reducedNotes(r.Reduced) {
+		fmt.Println("note:", trunc(l, 600))
+	}
 	for _, l := range violLines {
 		fmt.Println(l)
 	}
@@ -309,7 +316,7 @@ func (r *Report) writeEvidence(wall float64, violations, inconclusive int) {
 		"functions_encoded":                 topN(r.Funcs, 60),
 		"callee_treatment":                  topN(r.Intrinsics, 60),
 		"fork_sites":                        topN(r.ForkSites, 20),
-		"bounds":                            r.Bounds,
+		"bounds":                            append(append([]string(nil), r.Bounds...), reducedNotes(r.Reduced)...),
 		"outside_claim":                     r.Outside,
 		"inconclusive_paths":                inconclusive,
 		"engine_errors":                     len(r.EngineErrors),
@@ -365,7 +372,22 @@ func (cc *CheckCtx) Thorough() bool { return cc.Tier == "thorough" }
 func (cc *CheckCtx) RunValidateFamily(r *Report, skels []*Skeleton, opt VOptions) {
 	opt.Property = cc.ID
 	skels, results := RunSkeletons(cc.P, skels, cc.Workers, cc.Timeout, func(w *Worker, sk *Skeleton) *SkelResult {
-		return w.RunValidateSkeleton(sk, opt)
+		res := w.RunValidateSkeleton(sk, opt)
+		if budgetExceeded(res) && len(res.Findings) == 0 && sk.Tm != nil && (sk.Tm.Depth > 1 || sk.Tm.MaxLen > 2) {
+			// the planned instance template does not fit the path budget for this skeleton: decide it
+			// on a smaller template and say so (a reduced bound, never a silent cut)
+			small := *sk
+			tm := *sk.Tm
+			if tm.Depth > 1 {
+				tm.Depth = 1
+			} else {
+				tm.MaxLen = 2
+			}
+			small.Tm = &tm
+			res = w.RunValidateSkeleton(&small, opt)
+			res.ReducedBound = fmt.Sprintf("instance template reduced to depth %d, length %d (the planned template exceeded the path budget)", tm.Depth, tm.MaxLen)
+		}
+		return res
 	})
 	for i, s := range results {
 		for j := range s.Findings {
@@ -409,3 +431,15 @@ func RunCheck(id, tier string, seed int64) int {
 
 var _ = strings.Contains
 var _ = smt.Sat
+
+func reducedNotes(rs []string) []string {
+	if len(rs) == 0 {
+		return nil
+	}
+	sort.Strings(rs)
+	shown := rs
+	if len(shown) > 12 {
+		shown = shown[:12]
+	}
+	return []string{fmt.Sprintf("REDUCED BOUND for %d skeletons (planned template exceeded the per-skeleton path budget; decided on the smaller one): %s", len(rs), strings.Join(shown, "; "))}
+}
